@@ -8,6 +8,7 @@ from harness import project as pj
 
 POOL = ["a", "ab", "a_b", "b", "ba", "c", "abc", "d", "aa", "core", "util", "utils", "m1", "m", "axpy", "apy",
         "r2", "rx", "r_core",          # these three start with the root directory's name "r"
+        "r",                           # ... and a directory or file named exactly like the root directory (mysite/mysite)
         "_p", "test_a", "conftest", "Mod", "__main__", "setup"]
 ODD = ["a+b", "c(d", "e-f", "g$", "h[1]"]          # legal file/dir names with regex metacharacters; never imported
 EXTERNALS = [["os"], ["os", "path"], ["xlib"], ["xlib", "sub"], ["xlib", "sub", "deep"], ["logging", "handlers"],
